@@ -6,6 +6,7 @@ import (
 	"fmt"
 	"reflect"
 	"runtime"
+	"strings"
 	"sync"
 	"sync/atomic"
 	"testing"
@@ -15,6 +16,7 @@ import (
 	"go.universe.tf/metallb/internal/config"
 	"go.universe.tf/metallb/internal/k8s"
 	"go.universe.tf/metallb/internal/k8s/controllers"
+	"go.universe.tf/metallb/internal/layer2"
 	v1 "k8s.io/api/core/v1"
 	discovery "k8s.io/api/discovery/v1"
 	"k8s.io/apimachinery/pkg/types"
@@ -113,6 +115,7 @@ func TestVerif_C20(t *testing.T) {
 			return sb
 		}
 		sb := mk()
+		sb.l2.VerifSetSpamCapacity(1)
 		var elog []s20Entry
 		var inflight, overlapped, fetches int64
 		lis := &k8s.Listener{
@@ -267,15 +270,25 @@ func TestVerif_C20(t *testing.T) {
 			}
 		}()
 		fwg.Add(1)
-		go func() { // the gratuitous queue must be consumed or SetBalancer blocks
+		go func() { // plays the spam loop: takes an advertisement from the queue and sends a gratuitous round for it
 			defer fwg.Done()
+			defer guard("spam-loop")
+			q := sb.l2.SpamQueue()
+			var known []layer2.IPAdvertisement
 			for {
 				select {
 				case <-stop:
 					return
-				default:
-					sb.l2.DrainSpam()
-					runtime.Gosched()
+				case adv := <-q:
+					// as the real loop: remember the advertisement, then a round over everything remembered
+					known = append(known, adv)
+					if len(known) > 32 {
+						known = known[len(known)-32:]
+					}
+					for _, k := range known {
+						sb.l2.Gratuitous(k)
+						runtime.Gosched()
+					}
 				}
 			}
 		}()
@@ -283,12 +296,17 @@ func TestVerif_C20(t *testing.T) {
 		go func() { wg.Wait(); close(done) }()
 		select {
 		case <-done:
-		case <-time.After(120 * time.Second):
+		case <-time.After(60 * time.Second):
 			buf := make([]byte, 1<<20)
 			n := runtime.Stack(buf, true)
-			c.Inconclusive("drivers did not finish within 120 s (possible deadlock)")
-			c.Logf("%s", buf[:n])
+			dump := string(buf[:n])
+			if site := s20DeadlockSite(dump); site != "" {
+				c.Violation("deadlock:"+site, "the drivers made no progress for 60 s and are parked inside MetalLB (handler waiting while holding a lock another party needs)", map[string]any{"goroutines": dump[:min(len(dump), 12000)]})
+			} else {
+				c.Inconclusive("drivers did not finish within 60 s and the goroutine dump does not show them parked inside MetalLB")
+			}
 			close(stop)
+			c.Abort()
 			return
 		}
 		close(stop)
@@ -352,4 +370,27 @@ func splitKey(k string) (string, string, bool) {
 		}
 	}
 	return "", k, false
+}
+
+// s20DeadlockSite: in a goroutine dump, the innermost MetalLB frame of a goroutine that is parked on a
+// channel send or a lock while a k8s.Listener handler is on its stack (the handler holds the Listener
+// lock, so every other driver is queued behind it).
+func s20DeadlockSite(dump string) string {
+	for _, g := range strings.Split(dump, "\n\n") {
+		if !strings.Contains(g, "internal/k8s.(*Listener).") {
+			continue
+		}
+		if !(strings.Contains(g, "[chan send") || strings.Contains(g, "[sync.Mutex.Lock") || strings.Contains(g, "[sync.RWMutex") || strings.Contains(g, "[semacquire")) {
+			continue
+		}
+		for _, l := range strings.Split(g, "\n") {
+			if strings.HasPrefix(l, "go.universe.tf/metallb/") && !strings.Contains(l, "TestVerif") && !strings.Contains(l, ".vf") && !strings.Contains(l, "internal/k8s.(*Listener)") {
+				if k := strings.LastIndex(l, "("); k > 0 {
+					l = l[:k]
+				}
+				return strings.TrimPrefix(l, "go.universe.tf/metallb/")
+			}
+		}
+	}
+	return ""
 }
